@@ -35,7 +35,7 @@ def run_single(pgn, src, dest, prio, data, variant):
     """-> dict format -> canonical outcome, for a single CAN frame."""
     from nmea2000.decoder import NMEA2000Decoder
     ident = wire.ident(pgn, src, dest, prio)
-    up, direction, ts_a, ts_p, ts_y, pad = variant
+    up, direction, ts_a, ts_p, ts_y, pad = variant[:6]
     pad = bytes.fromhex(pad)
     out = {}
 
@@ -55,16 +55,21 @@ def run_single(pgn, src, dest, prio, data, variant):
 def run_fast(pgn, src, dest, prio, payload, seq, variant):
     from nmea2000.decoder import NMEA2000Decoder
     ident = wire.ident(pgn, src, dest, prio)
-    up, direction, ts_a, ts_p, ts_y, pad = variant
+    up, direction, ts_a, ts_p, ts_y, pad = variant[:6]
     pad = bytes.fromhex(pad)
     frames = wire.segment(payload, seq)
     out = {}
+
+    from ..common import CLOCK
+    warp = variant[6] if len(variant) > 6 else 0
 
     def frames_through(name, fn):
         try:
             d = NMEA2000Decoder()
             r = None
             for i, fr in enumerate(frames):
+                if i and warp:
+                    CLOCK.warp(warp)          # real time passes between two frames of the message
                 r = fn(d, fr)
                 if i < len(frames) - 1 and r is not None:
                     out[name] = ("early", canon(r))
@@ -111,7 +116,9 @@ variants = st.tuples(st.booleans(), st.sampled_from(["R", "T"]),
                      st.sampled_from(["2024-01-02-03:04:05.678", "2024-01-02T03:04:05.678Z"]),
                      st.sampled_from(["12:34:56.789", "00:00:00.000", "23:59:59.999"]),
                      # bytes after the declared data length inside the fixed-size binary packets are "don't care"
-                     st.one_of(st.just("00" * 8), st.just("ff" * 8), st.binary(min_size=8, max_size=8).map(bytes.hex)))
+                     st.one_of(st.just("00" * 8), st.just("ff" * 8), st.binary(min_size=8, max_size=8).map(bytes.hex)),
+                     # seconds of real time between two frames of a frame-wise delivery (process clock advanced)
+                     st.sampled_from([0, 0, 0, 1.0, 30.0]))
 
 
 def _work(ctx: Ctx, item):
